@@ -79,7 +79,7 @@ class Device:
             for r in replies:
                 self.last_emit = t
                 sched.S.at(t - sched.S.now, lambda r=r, line=line: self._emit_line(r, cause=line))
-                t += 1000       # 1 ms between the lines of a multi-line answer
+                t += 0 if getattr(self, "burst", False) else 1000       # 1 ms between the lines of a multi-line answer (burst: one segment)
 
     def _emit_line(self, line, cause=None, unsolicited=False):
         if self.dead or self.port is None:
